@@ -140,3 +140,10 @@ package node
 //@   modifies everything
 //@   assert@store(Config.ChainID,0): $value == req.ChainId                                                     [C03]
 //@   assert@call(PutChainID,0): $arg1 == req.ChainId                                                           [C03,C07]
+
+// ---- block end (C10): the validator updates computed by the staking controller are handed to the consensus
+// engine as they are, in every block
+//@ func (ctrler *RigoApp) EndBlock(req)
+//@   requires ctrler != nil && ctrler.nextBlockCtx != nil && ctrler.nextBlockCtx.feeSum != nil && ctrler.govCtrler != nil && ctrler.acctCtrler != nil && ctrler.acctCtrler.acctLedger != nil && ctrler.stakeCtrler != nil && ctrler.vmCtrler != nil && ctrler.logger != nil
+//@   modifies everything
+//@   ensures result.ValidatorUpdates == ctrler.nextBlockCtx.ValUpdates                                          [C10]
